@@ -9,6 +9,8 @@ the author's demo is run on it (must exit 0), the patch is applied, the demo is 
 VIOLATION line for that property.  Nothing is ever applied to /repo itself.
 
 usage: lib/rerun_seeded.py [-j N] [id ...]        (default: every seeded/C*; N = 4)
+       lib/rerun_seeded.py [-j N] --harmless [harmless/Cxx ...]   the behaviour-preserving rewrites
+           (seeded/harmless/): the demo must pass before and after and the check must stay QUIET
 writes seeded/RERUN.json (id -> verdict) and prints one line per id.
 """
 import glob
@@ -36,7 +38,7 @@ def demo_exit(demo_src, wt, slot):
     shutil.copytree(demo_src, d, ignore=shutil.ignore_patterns("target", "Cargo.lock"))
     ct = os.path.join(d, "Cargo.toml")
     t = open(ct).read()
-    t = re.sub(r'path\s*=\s*"/tmp/[A-Za-z0-9_]+/', 'path = "%s/' % wt, t)
+    t = re.sub(r'path\s*=\s*"/tmp/(?:r\d+/)?[A-Za-z0-9_]+/', 'path = "%s/' % wt, t)
     open(ct, "w").write(t)
     if os.path.exists(os.path.join(wt, "Cargo.lock")):
         shutil.copy(os.path.join(wt, "Cargo.lock"), os.path.join(d, "Cargo.lock"))
@@ -46,9 +48,13 @@ def demo_exit(demo_src, wt, slot):
 
 
 def one(sid, slot, wt):
+    harmless = sid.startswith("harmless/")
     d = os.path.join(V, "seeded", sid)
-    meta = json.load(open(os.path.join(d, "meta.json")))
-    prop = meta["property"]
+    if harmless:
+        prop = sid.split("/")[1]
+    else:
+        meta = json.load(open(os.path.join(d, "meta.json")))
+        prop = meta["property"]
     sh("git checkout -q -- . && git clean -fdq", cwd=wt)
     res = {"property": prop}
     demo = os.path.join(d, "demo")
@@ -71,6 +77,11 @@ def one(sid, slot, wt):
     summ = [l for l in c.stdout.splitlines() if "-> " in l]
     res["summary"] = summ[-1] if summ else c.stdout[-300:]
     caught = c.returncode == 1 and any(("property=%s " % prop) in l for l in vio)
+    if harmless:
+        # a behaviour-preserving rewrite: the demo passes before and after, and the check must stay quiet
+        res["verdict"] = "QUIET" if (c.returncode == 0 and not vio) else ("ALARM " + " ".join(vio)[:160])
+        sh("git checkout -q -- . && git clean -fdq", cwd=wt)
+        return res
     res["verdict"] = "CAUGHT" if caught else "MISSED"
     if caught and any("no-failing-input-found" in l for l in vio):
         res["verdict"] = "CAUGHT (no-failing-input-found)"
@@ -84,16 +95,20 @@ def main():
     if args and args[0] == "-j":
         j = int(args[1])
         args = args[2:]
+    if args and args[0] == "--harmless":
+        args = args[1:] or sorted("harmless/" + os.path.basename(p) for p in glob.glob(os.path.join(V, "seeded", "harmless", "C*")))
     ids = args or sorted(os.path.basename(p) for p in glob.glob(os.path.join(V, "seeded", "C*")))
     # one property never runs in two slots at once (Properties/Cxx.vo, replays/Cxx_*.json)
-    props = sorted({i.split("-")[0] for i in ids})
+    def prop_of(i):
+        return i.split("/")[1] if i.startswith("harmless/") else i.split("-")[0]
+    props = sorted({prop_of(i) for i in ids})
     slot_of = {p: k % j for k, p in enumerate(props)}
     results = {}
     lock = threading.Lock()
     sh("./check --setup", cwd=V)
 
     def worker(slot):
-        mine = [i for i in ids if slot_of[i.split("-")[0]] == slot]
+        mine = [i for i in ids if slot_of[prop_of(i)] == slot]
         if not mine:
             return
         wt = "/tmp/kv_seeded_wt_%d" % slot
@@ -129,7 +144,7 @@ def main():
     old = json.load(open(out)) if os.path.exists(out) else {}
     old.update(results)
     json.dump(old, open(out, "w"), indent=1, sort_keys=True)
-    bad = [i for i, r in results.items() if not str(r.get("verdict", "")).startswith("CAUGHT")]
+    bad = [i for i, r in results.items() if not str(r.get("verdict", "")).startswith(("CAUGHT", "QUIET"))]
     print("%d seeded changes re-run, %d caught, not caught: %s" % (len(results), len(results) - len(bad), bad or "none"))
     return 1 if bad else 0
 
